@@ -537,6 +537,8 @@ def evaluate__round(self: XPathFunction, context: ta.ContextType = None) -> ta.O
         return math.nan if self.parser.version == '1.0' else []
     elif isinstance(arg, XPathNode) or self.parser.compatibility_mode:
         arg = self.number_value(arg)
+    elif isinstance(arg, UntypedAtomic):
+        arg = self.cast_to_double(arg.value)  # function conversion rules: untyped -> xs:double
     elif isinstance(arg, (bool, str)):
         raise self.error('XPTY0004', "the argument is not a number")
 
